@@ -101,6 +101,9 @@ func structBody(m message.Message) (string, string) {
 		if gt.Kind() == reflect.Uint64 {
 			eu = "1"
 		}
+		if gt.Kind() == reflect.Bool || gt.Name() == "" {
+			// not encodable as a name the model knows: still announce it
+		}
 		for _, tag := range []string{"mavenum", "mavlen", "mavext", "mavname"} {
 			if strings.ContainsAny(f.Tag.Get(tag), ";, \t") {
 				panic("tag value not encodable")
